@@ -227,6 +227,49 @@ def run(rep, tier):
         else:
             rep.ok("C18.R3", fn, "%s relocates inline callables through a typed operation" % name)
 
+    # assign(F&&): the new target is constructed into storage that is valid at that point: on the 'same type, reuse the
+    # storage' edge only the old object's destructor runs (the block stays allocated); on the other edge the old target
+    # is destroyed *and* fresh storage is obtained before the placement new
+    DA_ = facts(rep, driver("c18_erasure.cpp"), [r"^pika::util::detail::basic_function::assign$"])
+    asg = [f for f in DA_.find(r"^pika::util::detail::basic_function::assign$") if not f.pattern and f.parent == -1 and f.params and "nullptr" not in f.params[0]["type"]]
+    if not asg:
+        raise AnalysisBroken("basic_function::assign(F&&) not instantiated")
+    for fn in asg:
+        SAME = "f_vptr == this->vptr"
+        leaves_a = set(cond_atoms(blk.cond)[0] for blk in fn.blocks.values() if blk.cond is not None)
+        if SAME not in leaves_a and "this->vptr == f_vptr" not in leaves_a:
+            raise AnalysisBroken("basic_function::assign: same-type test not found (%s)" % sorted(leaves_a))
+        same_atom = SAME if SAME in leaves_a else "this->vptr == f_vptr"
+        frees = lambda e: e.get("k") == "call" and callee_short(e) in ("destroy", "deallocate", "reset") and P(e.get("recv")) in ("this", "this->vptr", "*this->vptr")
+        dtor = lambda e: e.get("k") == "call" and callee_short(e).startswith("~")
+        alloc = lambda e: e.get("k") == "call" and callee_short(e) == "allocate"
+        isnew = lambda e: e.get("k") == "new"
+        probs = []
+        npaths = 0
+        for same in (True, False):
+            for evs, end in eval_walk(fn, fn.entry, atom_env={same_atom: same, "is_empty_function(f)": False}):
+                seq = [e for _, _, e in evs]
+                nw = [k_ for k_, e in enumerate(seq) if isnew(e)]
+                if not nw:
+                    continue
+                npaths += 1
+                pre = seq[:nw[0]]
+                if same:
+                    if any(frees(e) for e in pre):
+                        probs.append("reuse path frees the storage (%s) before constructing into it" % [callee_short(e) for e in pre if frees(e)][0])
+                    if not any(dtor(e) for e in pre):
+                        probs.append("reuse path does not destroy the old object")
+                else:
+                    if not any(frees(e) for e in pre) or not any(alloc(e) for e in pre):
+                        probs.append("different-type path must destroy the old target and allocate storage")
+        if npaths == 0:
+            raise AnalysisBroken("basic_function::assign: no path to the placement new")
+        if probs:
+            rep.bad("C18.R3", fn, fn.loc, "assign-storage", "basic_function::assign: %s - for a heap-stored callable (larger than the inline buffer) the new target is "
+                    "constructed in released memory and the block is freed again later" % "; ".join(sorted(set(probs))))
+        else:
+            rep.ok("C18.R3", fn, "assign: reuse path runs only the destructor, other path destroys + allocates before the placement new (%d paths)" % npaths, sites=npaths)
+
     # swap: after the buffers were exchanged each wrapper's object pointer is re-pointed into its *own* buffer,
     # independently of the other one (both may hold inline callables) - truth table over the two tests
     sw = fb("swap")[0]
